@@ -253,7 +253,7 @@ def run(ctx):
     ctx.check(okp, "C20.c", "plot:unknown-kind", "kind not in backend.types -> RuntimeError", "an unknown plot kind is no longer refused", pf.where)
     gb = init.functions.get("_get_backend")
     ctx.saw(gb)
-    okb = any(end_kind(p) == "raise" and ("not backend", True) in [(U(s[1]), s[2]) for s in p if s[0] == "cond"] for p in function_paths(gb.node))
+    okb = any(end_kind(p) == "raise" and ("backend", False) in [(U(s[1]), s[2]) for s in p if s[0] == "cond"] for p in function_paths(gb.node))
     ctx.check(okb, "C20.c", "_get_backend:unknown", "unknown backend -> RuntimeError", "an unknown backend is no longer refused", gb.where)
 
     # ---- C20.d labels ------------------------------------------------------------------------------------------------------------------
